@@ -518,6 +518,36 @@ func c15GenDir(r *rand.Rand) c15Case {
 		for i := r.Intn(6); i > 0; i-- {
 			rules = append(rules, c15Pick(r, c15IgnoreRules))
 		}
+		// rules derived from the tree itself, so that structural, rooted and directory rules hit
+		// nested paths: an existing directory or file, as it is / rooted / as a directory rule /
+		// by extension / negated
+		if ks := sortedKeys(files); len(ks) > 0 {
+			for i := r.Intn(3); i > 0; i-- {
+				k := ks[r.Intn(len(ks))]
+				if j := strings.LastIndex(k, "/"); j > 0 && r.Intn(3) != 0 {
+					k = k[:j] // a directory of the tree (possibly nested)
+					if r.Intn(2) == 0 {
+						k += "/"
+					}
+				}
+				switch r.Intn(6) {
+				case 0:
+					k = "/" + k
+				case 1:
+					if j := strings.LastIndex(k, "."); j > 0 && !strings.Contains(k[j:], "/") {
+						k = "*" + k[j:]
+					}
+				case 2:
+					k = "!" + k
+				case 3:
+					if j := strings.LastIndex(strings.TrimSuffix(k, "/"), "/"); j >= 0 {
+						k = k[j+1:] // last element only
+					}
+				}
+				rules = append(rules, k)
+			}
+			r.Shuffle(len(rules), func(i, j int) { rules[i], rules[j] = rules[j], rules[i] })
+		}
 		if hostile && r.Intn(3) == 0 {
 			rules = append(rules, c15Pick(r, c15BadIgnoreRules))
 		}
@@ -701,6 +731,9 @@ func (p *c15) Corpus() []any {
 	// negated and directory rules on a tree with nested directories
 	out = append(out, c15Case{Kind: "dir", Files: tree("!templates/\n")})
 	out = append(out, c15Case{Kind: "dir", Files: tree("docs/a/\n!*.md\n")})
+	out = append(out, c15Case{Kind: "dir", Files: tree("docs/a/\n")})
+	out = append(out, c15Case{Kind: "dir", Files: tree("/docs/a/\nfiles/x.txt\n")})
+	out = append(out, c15Case{Kind: "dir", Files: tree("/docs/a\n")})
 	_ = filepath.Join
 	return out
 }
